@@ -120,7 +120,7 @@ func propWholeTx(t *rapid.T) {
 					}
 				}
 				if (err == nil) == (n == 0) {
-					recWhole.Known(k.sig, fmt.Sprintf("ValidateTransactionScripts err=%v, model per input %v", err, results))
+					recWhole.Known(k.sig, fmt.Sprintf("btcd accepts=%v, Core semantics (model) accept=%v", err == nil, invalid == 0))
 					break
 				}
 			}
